@@ -130,6 +130,13 @@ func genPlanC04(rt *rapid.T, realClock bool) *Plan {
 	}
 	inSeqBias := rapid.IntRange(5, 9).Draw(rt, "in-seq-bias")
 	total := 0
+	// a gateway with a single connection slot assigns the same channel again at every reconnect; such plans get
+	// more reconnects, and the counters must restart all the same
+	reconnectOdds := 60
+	if !c.TCP && rapid.IntRange(0, 3).Draw(rt, "same-channel") == 0 {
+		p.DefConn.Ch = -1
+		reconnectOdds = rapid.SampledFrom([]int{6, 15, 60}).Draw(rt, "reconnect-odds")
+	}
 	for i := 0; i < n; i++ {
 		g := GwStep{AfterUs: rapid.SampledFrom([]int{0, 0, 0, 0, 1, 2, 7, 40}).Draw(rt, "gap")*1000 + 211, Kind: "req", Tag: 1000 + i*8, Chan: "cur", Seq: "exp"}
 		if rapid.IntRange(0, 9).Draw(rt, "seqclass") >= inSeqBias {
@@ -143,7 +150,7 @@ func genPlanC04(rt *rapid.T, realClock bool) *Plan {
 		if rapid.IntRange(0, 14).Draw(rt, "rep") == 0 {
 			g.Repeat = rapid.IntRange(1, 4).Draw(rt, "repeat") // back-to-back copies: the 2nd.. are repetitions of the previous number
 		}
-		if !c.TCP && rapid.IntRange(0, 60).Draw(rt, "reconnect") == 0 {
+		if !c.TCP && rapid.IntRange(0, reconnectOdds).Draw(rt, "reconnect") == 0 {
 			g = GwStep{AfterUs: g.AfterUs, Kind: "discreq", Chan: "cur"}
 		}
 		total += g.AfterUs
@@ -173,6 +180,9 @@ func genPlanC04(rt *rapid.T, realClock bool) *Plan {
 
 func classifyC04(p *Plan, res *Result, rec *common.Rec) bool {
 	prev, off, foreign, recon, wrap := false, false, false, false, false
+	if p.DefConn.Ch == -1 {
+		rec.Class("gateway reuses the channel at every reconnect")
+	}
 	for _, g := range p.Gw {
 		switch {
 		case g.Kind == "discreq":
